@@ -1,6 +1,9 @@
 //! C16 — the chain is tamper-evident, commits are atomic and deterministic (DESIGN §4, C16).
 //! Part S  (E4): BFS over every sequence of begin/put/delete/commit/rollback (+ raw append_block) over two
 //!               workspace slots on a real TensorChain; after every step chain + store == reference.
+//!               Two of the configurations run under a NON-EMPTY global codebook, so that auto-merge asks the
+//!               transition validator: codebook {e0} (every merge of the orthogonal e0/e1 workspaces is
+//!               rejected, the candidate ends Failed and must leave no trace) and {e0, e1, e0+e1} (accepted).
 //! Part X  (E4): tamper enumeration on a genesis+3-block chain with validator keys registered: every header
 //!               field / transaction-list mutation, removal, swap, forgery, every single-bit flip of the
 //!               stored bytes — verify() must fail.
@@ -19,7 +22,7 @@ use std::sync::{Arc, Mutex};
 use tensor_chain::network::MemoryTransport;
 use tensor_chain::signing::{Identity, ValidatorRegistry};
 use tensor_chain::transaction::{TransactionState, TransactionWorkspace};
-use tensor_chain::{compute_state_root, Block, Chain, ChainConfig, RaftConfig, RaftNode, TensorChain, TensorStateMachine, Transaction, ValidatorSignature};
+use tensor_chain::{compute_state_root, Block, Chain, ChainConfig, CodebookConfig, GlobalCodebook, RaftConfig, RaftNode, TensorChain, TensorStateMachine, Transaction, ValidationConfig, ValidatorSignature};
 use tensor_store::{ScalarValue, SparseVector, TensorStore, TensorValue};
 use vsched::{Body, ExploreCfg, RunResult, Verdict};
 
@@ -166,9 +169,36 @@ struct Cfg {
     merge: bool,
     /// 0: workspaces carry no delta embedding, 1: both slots the same direction, 2: orthogonal directions
     dirs: u8,
+    /// global codebook of the chain: 0 = empty ("learning mode", the transition validator is never asked),
+    /// 1 = {e0}: the validator rejects every merge of an e0 with an e1 workspace (target e0+e1 resp. source e1
+    /// is no known state), 2 = {e0, e1, e0+e1}: the validator is asked and accepts
+    #[serde(default)]
+    cb: u8,
 }
 fn configs() -> Vec<Cfg> {
-    vec![Cfg { merge: false, dirs: 0 }, Cfg { merge: true, dirs: 2 }, Cfg { merge: true, dirs: 1 }, Cfg { merge: false, dirs: 2 }, Cfg { merge: false, dirs: 1 }, Cfg { merge: true, dirs: 0 }]
+    vec![
+        Cfg { merge: false, dirs: 0, cb: 0 },
+        Cfg { merge: true, dirs: 2, cb: 0 },
+        Cfg { merge: true, dirs: 2, cb: 1 },
+        Cfg { merge: true, dirs: 1, cb: 0 },
+        Cfg { merge: false, dirs: 2, cb: 0 },
+        Cfg { merge: false, dirs: 1, cb: 0 },
+        Cfg { merge: true, dirs: 0, cb: 0 },
+        Cfg { merge: true, dirs: 2, cb: 2 },
+    ]
+}
+/// configurations explored one operation deeper: plain workspaces; orthogonal embeddings with auto-merge, under
+/// the empty codebook and under the rejecting one (thorough: also under the accepting one)
+fn deep(cfg: &Cfg, thorough: bool) -> bool {
+    (!cfg.merge && cfg.dirs == 0 && cfg.cb == 0) || (cfg.merge && cfg.dirs == 2 && (cfg.cb <= 1 || thorough))
+}
+fn centroids(cb: u8) -> Vec<Vec<f32>> {
+    let both: Vec<f32> = one_hot(0).iter().zip(one_hot(1)).map(|(a, b)| a + b).collect();
+    match cb {
+        0 => vec![],
+        1 => vec![one_hot(0)],
+        _ => vec![one_hot(0), one_hot(1), both],
+    }
 }
 fn alphabet() -> Vec<Op> {
     let mut v = vec![];
@@ -210,17 +240,33 @@ struct Seq {
     /// every block came from commit (replayable by a state machine)
     commit_only: bool,
     nops: u8,
+    /// what the last commit did to the *other* slot: (merged into the block, picked as candidate and failed)
+    last_merge: (u8, u8),
 }
-fn mk_chain(merge: bool) -> (TensorChain, TensorStore) {
+fn mk_chain(merge: bool, cb: u8) -> (TensorChain, TensorStore) {
     let store = TensorStore::new();
-    let chain = TensorChain::with_config(store.clone(), ChainConfig::new("p").with_auto_merge(merge));
+    let config = ChainConfig::new("p").with_auto_merge(merge);
+    let chain = if cb == 0 { TensorChain::with_config(store.clone(), config) } else { TensorChain::with_codebook(store.clone(), config, GlobalCodebook::from_centroids(centroids(cb)), CodebookConfig::default(), ValidationConfig::default()) };
     chain.initialize().expect("initialize");
     (chain, store)
 }
+/// multiset difference a - b
+fn minus(a: &[Transaction], b: &[Transaction]) -> Vec<Transaction> {
+    let mut rest: Vec<&Transaction> = b.iter().collect();
+    let mut out = vec![];
+    for t in a {
+        if let Some(i) = rest.iter().position(|x| *x == t) {
+            rest.swap_remove(i);
+        } else {
+            out.push(t.clone());
+        }
+    }
+    out
+}
 impl Seq {
     fn fresh(cfg: Cfg) -> Seq {
-        let (chain, store) = mk_chain(cfg.merge);
-        Seq { cfg, chain, store, slots: [None, None], gens: [0, 0], ref_store: RefStore::new(), ref_blocks: vec![], commit_only: true, nops: 0 }
+        let (chain, store) = mk_chain(cfg.merge, cfg.cb);
+        Seq { cfg, chain, store, slots: [None, None], gens: [0, 0], ref_store: RefStore::new(), ref_blocks: vec![], commit_only: true, nops: 0, last_merge: (0, 0) }
     }
     fn states(&self) -> Vec<Option<TransactionState>> {
         self.slots.iter().map(|s| s.as_ref().map(|s| s.ws.state())).collect()
@@ -267,6 +313,12 @@ impl Seq {
                 let after = self.states();
                 let h1 = self.chain.height();
                 let newly: Vec<usize> = (0..2).filter(|&i| before[i] != Some(TransactionState::Committed) && after[i] == Some(TransactionState::Committed)).collect();
+                // another workspace that this commit picked as a merge candidate and gave up (validator said no,
+                // or the whole commit failed): it did not commit, so none of its writes may show anywhere
+                let rejected: Vec<usize> = (0..2).filter(|&i| i != w && before[i] == Some(TransactionState::Active) && after[i] == Some(TransactionState::Failed)).collect();
+                // selftest: pretend the validator had refused the candidate this commit merged (oracle must alarm)
+                let (newly, rejected) = if selftest() && self.cfg.cb == 2 { (newly.iter().copied().filter(|&i| i == w).collect::<Vec<_>>(), (0..2).filter(|&i| i != w && newly.contains(&i)).collect::<Vec<_>>()) } else { (newly, rejected) };
+                self.last_merge = (newly.iter().filter(|&&i| i != w).count() as u8, rejected.len() as u8);
                 match r {
                     Ok(hash) => {
                         if !newly.contains(&w) {
@@ -285,6 +337,11 @@ impl Seq {
                                 Ok(Some(b)) => b,
                                 other => return viol("commit-block-missing", format!("commit returned Ok, height {h0}->{h1}, get_block({h1}) = {:?}", other.map(|o| o.is_some()))),
                             };
+                            let extra = minus(&b.transactions, &expected);
+                            let of_rejected: Vec<Transaction> = rejected.iter().flat_map(|&i| self.slots[i].as_ref().unwrap().ops.clone()).collect();
+                            if !extra.is_empty() && minus(&expected, &b.transactions).is_empty() && minus(&extra, &of_rejected).is_empty() {
+                                return viol("rejected-merge-candidate-left-writes", format!("commit of slot {w} returned Ok; slot {} was picked as merge candidate and rejected (state {:?} -> {:?}), yet its writes {extra:?} are in the new block {:?} (and applied to the store: {:?})", rejected[0], before[rejected[0]], after[rejected[0]], b.transactions, user_store(&self.store)));
+                            }
                             if b.transactions != expected {
                                 return viol("commit-block-content", format!("the new block holds {:?}, the committed workspaces wrote {:?}", b.transactions, expected));
                             }
@@ -413,6 +470,12 @@ struct SeqOut {
     seqs: Vec<(Cfg, Vec<Op>, String)>,
     commits_ok: u64,
     commits_err: u64,
+    /// commits that took the other workspace into their block: under an empty codebook / with the validator's consent
+    merges_unvalidated: u64,
+    merges_validated: u64,
+    /// commits whose merge candidate was rejected by the validator (candidate Failed): all / candidate had writes
+    merges_rejected: u64,
+    merges_rejected_with_writes: u64,
     tasks: Vec<serde_json::Value>,
 }
 fn hash_str(s: &str) -> u64 {
@@ -435,7 +498,7 @@ fn part_s(cfg: Cfg, depth: usize, first: Op, out: &mut SeqOut) {
     let mut local_seq: HashSet<String> = HashSet::new();
     let mut local_deepest: Vec<Op> = vec![];
     for level in 0..depth {
-        type Row = (Vec<Op>, Result<(String, Option<String>, bool, bool), Viol>);
+        type Row = (Vec<Op>, Result<(String, Option<String>, bool, bool, (u8, u8, bool)), Viol>);
         let results: Vec<Row> = frontier
             .par_iter()
             .flat_map_iter(|hist| {
@@ -471,9 +534,15 @@ fn part_s(cfg: Cfg, depth: usize, first: Op, out: &mut SeqOut) {
                     let commit_failed = matches!(op, Op::Commit(_)) && !new_block;
                     let seq_key = (new_block && s.commit_only && !s.ref_blocks.last().unwrap().is_empty()).then(|| {
                         let blocks: Vec<Block> = (1..=s.chain.height()).map(|h| s.chain.get_block(h).unwrap().unwrap()).collect();
-                        format!("{:?}", blocks.iter().map(|b| (&b.transactions, b.header.delta_embedding.nnz())).collect::<Vec<_>>())
+                        format!("{:?}", blocks.iter().map(|b| (&b.transactions, b.header.delta_embedding.nnz(), &b.header.quantized_codes)).collect::<Vec<_>>())
                     });
-                    v.push((h2, Ok((s.canon(), seq_key, new_block, commit_failed))));
+                    let merge = if let Op::Commit(w) = op {
+                        let other_wrote = s.slots[1 - *w as usize].as_ref().is_some_and(|o| !o.ops.is_empty());
+                        (s.last_merge.0, s.last_merge.1, other_wrote)
+                    } else {
+                        (0, 0, false)
+                    };
+                    v.push((h2, Ok((s.canon(), seq_key, new_block, commit_failed, merge))));
                 }
                 v
             })
@@ -484,10 +553,16 @@ fn part_s(cfg: Cfg, depth: usize, first: Op, out: &mut SeqOut) {
             match r {
                 Err(v) => {
                     out.violating += 1;
+                    if v.sig == "rejected-merge-candidate-left-writes" {
+                        // the path was exercised (and failed): keep the non-vacuity counters honest
+                        out.merges_rejected += 1;
+                        out.merges_rejected_with_writes += 1;
+                    }
                     let sig = match hist.last().unwrap() {
                         // rollback must leave chain and store untouched; whatever changed, the cause is the restore
                         Op::Rollback(_) => format!("c16:seq:rollback-restores-begin-snapshot:{}", v.sig),
                         Op::AppendUnsigned if v.sig == "verify-fails" => "c16:seq:append-accepts-unsigned-block-1:verify-fails".to_string(),
+                        Op::Commit(_) if v.sig == "rejected-merge-candidate-left-writes" => "c16:seq:rejected-merge-candidate-left-writes".to_string(),
                         op => format!("c16:seq:{}:{}", op_kind(op), v.sig),
                     };
                     // first 3 per signature *of this task* (BFS order = shortest first); the parent picks the
@@ -496,12 +571,21 @@ fn part_s(cfg: Cfg, depth: usize, first: Op, out: &mut SeqOut) {
                         local_viol.push(nvc::report::ViolationRec { signature: sig.clone(), message: format!("cfg {cfg:?}, after {hist:?}: {}", v.msg), replay: json!({"part":"S","cfg":cfg,"ops":hist}) });
                     }
                 }
-                Ok((key, seq_key, new_block, commit_failed)) => {
+                Ok((key, seq_key, new_block, commit_failed, (merged, rejected, other_wrote))) => {
                     if matches!(hist.last(), Some(Op::Commit(_))) {
                         if new_block {
                             out.commits_ok += 1;
                         } else if commit_failed {
                             out.commits_err += 1;
+                        }
+                        if cfg.cb == 0 {
+                            out.merges_unvalidated += u64::from(merged);
+                        } else {
+                            out.merges_validated += u64::from(merged);
+                        }
+                        if new_block && rejected > 0 {
+                            out.merges_rejected += 1;
+                            out.merges_rejected_with_writes += u64::from(other_wrote);
                         }
                     }
                     if let Some(k) = seq_key {
@@ -533,10 +617,9 @@ fn block_seq(cfg: Cfg, hist: &[Op]) -> BlockSeq {
     let s = replay(cfg, hist).ok().expect("replay of a recorded history");
     BlockSeq { hist: hist.to_vec(), cfg, proposer: s.chain.node_id().clone(), pubkey: s.chain.public_key_bytes(), blocks: (1..=s.chain.height()).map(|h| s.chain.get_block(h).unwrap().unwrap()).collect() }
 }
-fn s_depth(cfg_index: usize, thorough: bool) -> usize {
-    // the two leading configurations (plain workspaces; orthogonal embeddings with auto-merge) go one deeper
+fn s_depth(cfg: &Cfg, thorough: bool) -> usize {
     let d = if thorough { 6 } else { 5 };
-    if cfg_index < 2 {
+    if deep(cfg, thorough) {
         d
     } else {
         d - 1
@@ -851,7 +934,7 @@ fn tamper_signature(orig: &Block, mutated: Option<&Block>, fields: &[&str]) -> S
 fn part_x(bitflips: bool) -> TamperOut {
     thread_clock_reset();
     let mut out = TamperOut::default();
-    let (chain, store) = mk_chain(false);
+    let (chain, store) = mk_chain(false, 0);
     let v2 = Identity::generate();
     let forger = Identity::generate();
     chain.register_validator(&v2);
@@ -1014,23 +1097,28 @@ struct Program {
     ws: Vec<(Option<u8>, Vec<String>, TAct)>,
     /// blocks committed before the threads start
     pre_blocks: u8,
+    /// global codebook (see Cfg::cb)
+    #[serde(default)]
+    cb: u8,
 }
 fn programs(thorough: bool) -> Vec<Program> {
     let k = |s: &[&str]| s.iter().map(|x| x.to_string()).collect::<Vec<_>>();
     let mut v = vec![];
     for merge in [false, true] {
         let m = if merge { "merge on" } else { "merge off" };
-        v.push(Program { name: format!("2 commits, no embeddings, disjoint keys ({m})"), merge, ws: vec![(None, k(&["a"]), TAct::Commit), (None, k(&["b"]), TAct::Commit)], pre_blocks: 0 });
-        v.push(Program { name: format!("2 commits, orthogonal embeddings, disjoint keys ({m})"), merge, ws: vec![(Some(0), k(&["a"]), TAct::Commit), (Some(1), k(&["b"]), TAct::Commit)], pre_blocks: 0 });
-        v.push(Program { name: format!("2 commits, conflicting embeddings, overlapping keys ({m})"), merge, ws: vec![(Some(0), k(&["a"]), TAct::Commit), (Some(0), k(&["a", "b"]), TAct::Commit)], pre_blocks: 0 });
+        v.push(Program { name: format!("2 commits, no embeddings, disjoint keys ({m})"), merge, ws: vec![(None, k(&["a"]), TAct::Commit), (None, k(&["b"]), TAct::Commit)], pre_blocks: 0, cb: 0 });
+        v.push(Program { name: format!("2 commits, orthogonal embeddings, disjoint keys ({m})"), merge, ws: vec![(Some(0), k(&["a"]), TAct::Commit), (Some(1), k(&["b"]), TAct::Commit)], pre_blocks: 0, cb: 0 });
+        v.push(Program { name: format!("2 commits, conflicting embeddings, overlapping keys ({m})"), merge, ws: vec![(Some(0), k(&["a"]), TAct::Commit), (Some(0), k(&["a", "b"]), TAct::Commit)], pre_blocks: 0, cb: 0 });
     }
-    v.push(Program { name: "2 commits, no embeddings, same key (merge off)".into(), merge: false, ws: vec![(None, k(&["a"]), TAct::Commit), (None, k(&["a"]), TAct::Commit)], pre_blocks: 1 });
-    v.push(Program { name: "commit || rollback of another workspace (merge off)".into(), merge: false, ws: vec![(None, k(&["a"]), TAct::Commit), (None, k(&["b"]), TAct::Rollback)], pre_blocks: 0 });
-    v.push(Program { name: "commit || rollback of an orthogonal workspace the commit may merge (merge on)".into(), merge: true, ws: vec![(Some(0), k(&["a"]), TAct::Commit), (Some(1), k(&["b"]), TAct::Rollback)], pre_blocks: 0 });
+    v.push(Program { name: "2 commits, no embeddings, same key (merge off)".into(), merge: false, ws: vec![(None, k(&["a"]), TAct::Commit), (None, k(&["a"]), TAct::Commit)], pre_blocks: 1, cb: 0 });
+    v.push(Program { name: "commit || rollback of another workspace (merge off)".into(), merge: false, ws: vec![(None, k(&["a"]), TAct::Commit), (None, k(&["b"]), TAct::Rollback)], pre_blocks: 0, cb: 0 });
+    v.push(Program { name: "commit || rollback of an orthogonal workspace the commit may merge (merge on)".into(), merge: true, ws: vec![(Some(0), k(&["a"]), TAct::Commit), (Some(1), k(&["b"]), TAct::Rollback)], pre_blocks: 0, cb: 0 });
+    v.push(Program { name: "2 commits, orthogonal embeddings, disjoint keys, codebook {e0}: the validator rejects the merge candidate (merge on)".into(), merge: true, ws: vec![(Some(0), k(&["a"]), TAct::Commit), (Some(1), k(&["b"]), TAct::Commit)], pre_blocks: 0, cb: 1 });
     if thorough {
-        v.push(Program { name: "3 commits, no embeddings, disjoint keys (merge off)".into(), merge: false, ws: vec![(None, k(&["a"]), TAct::Commit), (None, k(&["b"]), TAct::Commit), (None, k(&["c"]), TAct::Commit)], pre_blocks: 0 });
-        v.push(Program { name: "3 commits, orthogonal embeddings (merge on)".into(), merge: true, ws: vec![(Some(0), k(&["a"]), TAct::Commit), (Some(1), k(&["b"]), TAct::Commit), (Some(2), k(&["c"]), TAct::Commit)], pre_blocks: 0 });
-        v.push(Program { name: "3 commits, two conflicting + one orthogonal (merge on)".into(), merge: true, ws: vec![(Some(0), k(&["a"]), TAct::Commit), (Some(0), k(&["a", "b"]), TAct::Commit), (Some(1), k(&["c"]), TAct::Commit)], pre_blocks: 0 });
+        v.push(Program { name: "2 commits, orthogonal embeddings, disjoint keys, codebook {e0, e1, e0+e1}: the validator accepts the merge candidate (merge on)".into(), merge: true, ws: vec![(Some(0), k(&["a"]), TAct::Commit), (Some(1), k(&["b"]), TAct::Commit)], pre_blocks: 0, cb: 2 });
+        v.push(Program { name: "3 commits, no embeddings, disjoint keys (merge off)".into(), merge: false, ws: vec![(None, k(&["a"]), TAct::Commit), (None, k(&["b"]), TAct::Commit), (None, k(&["c"]), TAct::Commit)], pre_blocks: 0, cb: 0 });
+        v.push(Program { name: "3 commits, orthogonal embeddings (merge on)".into(), merge: true, ws: vec![(Some(0), k(&["a"]), TAct::Commit), (Some(1), k(&["b"]), TAct::Commit), (Some(2), k(&["c"]), TAct::Commit)], pre_blocks: 0, cb: 0 });
+        v.push(Program { name: "3 commits, two conflicting + one orthogonal (merge on)".into(), merge: true, ws: vec![(Some(0), k(&["a"]), TAct::Commit), (Some(0), k(&["a", "b"]), TAct::Commit), (Some(1), k(&["c"]), TAct::Commit)], pre_blocks: 0, cb: 0 });
     }
     v
 }
@@ -1052,7 +1140,7 @@ fn build(p: &Program) -> Built {
     thread_clock_advance_ms(7);
     let _ = tensor_chain::generate_tx_id();
     thread_clock_reset();
-    let (chain, store) = mk_chain(p.merge);
+    let (chain, store) = mk_chain(p.merge, p.cb);
     let mut pre = vec![];
     for i in 0..p.pre_blocks {
         let ws = chain.begin().expect("begin");
@@ -1114,7 +1202,10 @@ fn quiescent_check(b: &Built, p: &Program, results: &[Option<Result<u64, String>
             let want = usize::from(committed);
             if counts.iter().any(|&c| c != want) {
                 let whole_blocks = blocks.iter().filter(|bl| ops.iter().all(|t| bl.transactions.contains(t))).count();
-                return viol(if committed { "committed-workspace-not-once" } else { "uncommitted-workspace-in-chain" }, format!("workspace {i} is {:?} (call returned {}), its writes occur {counts:?} times in the chain ({whole_blocks} blocks hold all of them)", states[i], res_s[i]));
+                // a Failed workspace riding in the block of a Committed one, on a chain whose validator may refuse
+                // merges: it was picked as merge candidate and rejected
+                let rides = p.cb != 0 && states[i] == TransactionState::Failed && blocks.iter().any(|bl| ops.iter().all(|t| bl.transactions.contains(t)) && (0..b.ops.len()).any(|j| j != i && states[j] == TransactionState::Committed && b.ops[j].iter().all(|t| bl.transactions.contains(t))));
+                return viol(if committed { "committed-workspace-not-once" } else if rides { "rejected-merge-candidate-left-writes" } else { "uncommitted-workspace-in-chain" }, format!("workspace {i} is {:?} (call returned {}), its writes occur {counts:?} times in the chain ({whole_blocks} blocks hold all of them)", states[i], res_s[i]));
             }
             if committed && !blocks.iter().any(|bl| ops.iter().all(|t| bl.transactions.contains(t))) {
                 return viol("workspace-split-over-blocks", format!("workspace {i}'s writes are spread over several blocks"));
@@ -1183,6 +1274,7 @@ fn conc_signature(p: &Program, message: &str) -> (String, String) {
     };
     let with_rollback = p.ws.iter().any(|w| matches!(w.2, TAct::Rollback));
     let sig = match sig.strip_prefix("c16:conc:") {
+        Some("rejected-merge-candidate-left-writes") => sig.clone(),
         Some(sym) if sym != "deadlock" && sym != "panic" && sym != "thread-failure" => {
             if with_rollback {
                 format!("c16:conc:rollback-restores-begin-snapshot:{sym}")
@@ -1275,8 +1367,8 @@ fn tasks(thorough: bool) -> Vec<Task> {
 }
 fn task_cost(t: &Task, thorough: bool) -> u32 {
     match t {
-        Task::S(ci, _, Op::Begin(_)) => 10 * 6u32.pow(s_depth(*ci, thorough) as u32 - 3),
-        Task::S(ci, _, Op::AppendSigned) => 3 * 6u32.pow(s_depth(*ci, thorough) as u32 - 3),
+        Task::S(_, cfg, Op::Begin(_)) => 10 * 6u32.pow(s_depth(cfg, thorough) as u32 - 3),
+        Task::S(_, cfg, Op::AppendSigned) => 3 * 6u32.pow(s_depth(cfg, thorough) as u32 - 3),
         Task::S(..) => 1,
         Task::T(pi, _) => {
             let p = &programs(thorough)[*pi];
@@ -1303,7 +1395,7 @@ fn worker(_i: usize, _n: usize, thorough: bool, claims: &str) {
             continue;
         }
         match task {
-            Task::S(ci, cfg, first) => part_s(cfg, s_depth(ci, thorough), first, &mut st.seq),
+            Task::S(_, cfg, first) => part_s(cfg, s_depth(&cfg, thorough), first, &mut st.seq),
             Task::T(pi, part) => explore_program(&progs[pi], bound_for(&progs[pi], thorough), (part, parts(thorough)), &mut st),
         }
     }
@@ -1316,7 +1408,7 @@ fn run_selftest() -> ! {
     let count = |v: &[nvc::report::ViolationRec], pat: &str| v.iter().filter(|x| x.signature.contains(pat)).count();
     let run_s = || {
         let mut s = SeqOut::default();
-        part_s(Cfg { merge: false, dirs: 0 }, 3, Op::Begin(0), &mut s);
+        part_s(Cfg { merge: false, dirs: 0, cb: 0 }, 3, Op::Begin(0), &mut s);
         s
     };
     vsched::quiet_panics();
@@ -1327,17 +1419,29 @@ fn run_selftest() -> ! {
         st
     };
     let mut s2 = SeqOut::default();
-    part_s(Cfg { merge: false, dirs: 0 }, 4, Op::Begin(0), &mut s2);
+    part_s(Cfg { merge: false, dirs: 0, cb: 0 }, 4, Op::Begin(0), &mut s2);
     let seqs: Vec<BlockSeq> = s2.seqs.iter().take(4).map(|(c, h, _)| block_seq(*c, h)).collect();
-    let (s0, x0, r0, t0) = (run_s(), part_x(false), part_r(&seqs), run_t());
+    // the merge-candidate oracle: [begin 0, begin 1, put 0, put 1, commit 0] under the rejecting ({e0}) and the
+    // accepting ({e0,e1,e0+e1}) codebook; (state of slot 1, verdict of step+check)
+    let run_m = |cb: u8| {
+        let hist = [Op::Begin(0), Op::Begin(1), Op::Put(0, 0), Op::Put(1, 1)];
+        let mut s = replay(Cfg { merge: true, dirs: 2, cb }, &hist).ok().expect("selftest history");
+        let v = s.step(Op::Commit(0)).and_then(|_| s.check()).err().map(|v| v.sig);
+        (s.states()[1], v, s.chain.get_block(1).ok().flatten().map_or(0, |b| b.transactions.len()))
+    };
+    let (s0, x0, r0, t0, m0) = (run_s(), part_x(false), part_r(&seqs), run_t(), (run_m(1), run_m(2)));
     SELFTEST.store(true, std::sync::atomic::Ordering::Relaxed);
-    let (s1, x1, r1, t1) = (run_s(), part_x(false), part_r(&seqs), run_t());
+    let (s1, x1, r1, t1, m1) = (run_s(), part_x(false), part_r(&seqs), run_t(), run_m(2));
     let twin = |r: &ReplicaOut| r.passing_by_scenario.get(&0).copied().unwrap_or(0);
     println!("selftest S (reference ignores puts to key b): commit:store-differs alarms {} -> {}", count(&s0.violations, "commit:store-differs"), count(&s1.violations, "commit:store-differs"));
     println!("selftest X (field mutations are not written, so verify() passes): undetected {} -> {} of {} field mutations", x0.undetected, x1.undetected, x1.field_mutations);
     println!("selftest R (replica B's root perturbed): identical-twin cases passing {} -> {} of {}", twin(&r0), twin(&r1), seqs.len());
     println!("selftest T (reference ignores puts to key b): violating schedules {} -> {} of {}", t0.violation_total, t1.violation_total, t1.executions);
+    println!("selftest S/merge (baseline: codebook {{e0}} -> candidate {:?}, block of {} tx, verdict {:?}; codebook {{e0,e1,e0+e1}} -> candidate {:?}, block of {} tx, verdict {:?}); accepted candidate treated as rejected -> verdict {:?}", m0.0 .0, m0.0 .2, m0.0 .1, m0.1 .0, m0.1 .2, m0.1 .1, m1.1);
     let ok = count(&s0.violations, "commit:store-differs") == 0
+        && m0.0 == (Some(TransactionState::Failed), None, 1)
+        && m0.1 == (Some(TransactionState::Committed), None, 2)
+        && m1.1.as_deref() == Some("rejected-merge-candidate-left-writes")
         && count(&s1.violations, "commit:store-differs") > 0
         && x1.undetected >= x1.field_mutations
         && x0.undetected < 30
@@ -1442,8 +1546,9 @@ fn main() {
     let thorough = rep.thorough();
     let depth = if thorough { 6 } else { 5 };
     let bound = if thorough { "2 (2-thread programs) / 1 (3-thread programs)" } else { "1" };
-    rep.rule(&format!("S: for each of 6 configurations (auto-merge on/off x workspaces without / with identical / with orthogonal delta embeddings) BFS over every sequence of <= {depth} (first two configurations) / {} (others) operations from {{begin(slot), put(slot,key), delete(slot,key), commit(slot), rollback(slot), append_block(signed|unsigned)}} over 2 workspace slots and 2 keys, replayed on a fresh real TensorChain, dedup on (blocks, store, workspace states/ops); after every step: verify() Ok, every height present/linked/rooted, tip_hash/get_block/history agree with the blocks added, new block == the writes of exactly the workspaces that became Committed, store user keys == reference. X: genesis + 3 committed blocks, own and a second validator key registered; every header-field and transaction-list mutation of every stored block (tx_root kept and recomputed), co-signature injection, every removal, every swap, 4 forgeries per block, every single-bit flip of every stored block's bytes; verify() must fail unless the decoded block is equal. R: every distinct commit-built block sequence of S applied by two TensorStateMachines (proposer's node id and key), replica A at the proposer's clock T; replica B: (0) identical twin, (1) same genesis, applies one hour later, (2) created one hour later, (3) another node id at the same clock; same accept/reject, same compute_state_root after each block. T: per program 2{} real threads calling commit (one program: rollback) on prepared workspaces, every schedule with <= {bound} preemptions; quiescent chain verifies and is linked, each Committed workspace exactly once in one block, no other, store == blocks applied in order. non-trivial = distinct S states + schedules with >= 1 preemption + tamper cases + replica comparisons", depth - 1, if thorough { "-3" } else { "" }));
-    rep.assume("interleavings at lock-acquisition granularity: TensorChain::commit/rollback, TransactionManager, TransactionWorkspace, Chain, GraphEngine, TensorStore, ValidatorRegistry, GlobalCodebook use parking_lot / dashmap locks only (no std::sync, tokio::sync or Condvar on these paths); Chain::height is an atomic read inside lock-delimited segments");
+    rep.rule(&format!("S: for each of 8 configurations (auto-merge on/off x workspaces without / with identical / with orthogonal delta embeddings under the default empty global codebook, plus auto-merge on + orthogonal embeddings e0/e1 on a chain built with_codebook: {{e0}}, where the transition validator rejects every merge candidate [target e0+e1 resp. source e1 is no known state], and {{e0, e1, e0+e1}}, where it is asked and accepts) BFS over every sequence of <= {depth} (plain workspaces; merge + orthogonal under the empty and under the rejecting{} codebook) / {} (others) operations from {{begin(slot), put(slot,key), delete(slot,key), commit(slot), rollback(slot), append_block(signed|unsigned)}} over 2 workspace slots and 2 keys, replayed on a fresh real TensorChain, dedup on (blocks, store, workspace states/ops); after every step: verify() Ok, every height present/linked/rooted, tip_hash/get_block/history agree with the blocks added, new block == the writes of exactly the workspaces that became Committed (a workspace the commit picked as merge candidate and left Failed contributes nothing to block, store or history), store user keys == reference. X: genesis + 3 committed blocks, own and a second validator key registered; every header-field and transaction-list mutation of every stored block (tx_root kept and recomputed), co-signature injection, every removal, every swap, 4 forgeries per block, every single-bit flip of every stored block's bytes; verify() must fail unless the decoded block is equal. R: every distinct commit-built block sequence of S applied by two TensorStateMachines (proposer's node id and key), replica A at the proposer's clock T; replica B: (0) identical twin, (1) same genesis, applies one hour later, (2) created one hour later, (3) another node id at the same clock; same accept/reject, same compute_state_root after each block. T: per program 2{} real threads calling commit (one program: rollback) on prepared workspaces (one program on the {{e0}}-codebook chain whose validator rejects the merge candidate{}), every schedule with <= {bound} preemptions; quiescent chain verifies and is linked, each Committed workspace exactly once in one block, no other, store == blocks applied in order. non-trivial = distinct S states + schedules with >= 1 preemption + tamper cases + replica comparisons", if thorough { " and accepting" } else { "" }, depth - 1, if thorough { "-3" } else { "" }, if thorough { ", one on the accepting codebook" } else { "" }));
+    rep.assume("interleavings at lock-acquisition granularity: TensorChain::commit/rollback, TransactionManager, TransactionWorkspace, Chain, GraphEngine, TensorStore, ValidatorRegistry, GlobalCodebook, TransitionValidator use parking_lot / dashmap locks only (no std::sync, tokio::sync or Condvar on these paths); Chain::height is an atomic read inside lock-delimited segments");
+    rep.assume("the non-empty-codebook configurations build the chain with TensorChain::with_codebook(GlobalCodebook::from_centroids(..), CodebookConfig::default(), ValidationConfig::default()) (state_threshold 0.8, strict transitions, max magnitude 1.0) over 128-dimensional one-hot deltas, all begins inside the merge window (frozen clock); load_or_create over a persisted codebook reaches the same find_and_merge_orthogonal code and is not run separately");
     rep.assume("tampering = rewriting the `_block` bytes (or the whole entry) of `chain:block:<h>` in the store of a live TensorChain; the in-memory height/tip of that instance are trusted; reopening a truncated store is not examined");
 
 
@@ -1488,6 +1593,10 @@ fn main() {
         s.violating += w.seq.violating;
         s.commits_ok += w.seq.commits_ok;
         s.commits_err += w.seq.commits_err;
+        s.merges_unvalidated += w.seq.merges_unvalidated;
+        s.merges_validated += w.seq.merges_validated;
+        s.merges_rejected += w.seq.merges_rejected;
+        s.merges_rejected_with_writes += w.seq.merges_rejected_with_writes;
         s.tasks.extend(w.seq.tasks);
         if deeper(&w.seq.deepest, &s.deepest) {
             s.deepest = w.seq.deepest.clone();
@@ -1511,7 +1620,7 @@ fn main() {
     // one representative history per distinct block sequence: the smallest in a fixed order
     s.seqs.sort_by_key(|x| (x.1.len(), format!("{:?}", x.1), format!("{:?}", x.0)));
     s.seqs.retain(|x| seq_seen.insert(x.2.clone()));
-    rep.part("S", json!({"depth": depth, "tasks": s.tasks, "distinct_states": s_states, "transitions": s.transitions, "violating_transitions": s.violating, "commits_creating_a_block": s.commits_ok, "commits_without_block": s.commits_err, "wall_s_together_with_T": st_wall}));
+    rep.part("S", json!({"depth": depth, "tasks": s.tasks, "distinct_states": s_states, "transitions": s.transitions, "violating_transitions": s.violating, "commits_creating_a_block": s.commits_ok, "commits_without_block": s.commits_err, "commits_merging_the_other_workspace(empty codebook)": s.merges_unvalidated, "commits_merging_the_other_workspace(validator accepted)": s.merges_validated, "commits_whose_merge_candidate_the_validator_rejected": s.merges_rejected, "..of which the rejected candidate had writes": s.merges_rejected_with_writes, "wall_s_together_with_T": st_wall}));
     rep.sample(json!({"part":"S","deepest_new_state_history": s.deepest}));
     let single: Vec<&String> = tt.outcomes.iter().filter(|(_, v)| v.len() < 2).map(|(k, _)| k).collect();
     // artefacts are capped (8 per schedule-tree partition, 3 per signature); the outcome sets are not
@@ -1559,6 +1668,9 @@ fn main() {
     }
     if s.commits_ok < 10 || seqs.is_empty() {
         rep.machinery("vacuous: (almost) no commit created a block");
+    }
+    if s.merges_rejected_with_writes == 0 || s.merges_validated == 0 || s.merges_unvalidated == 0 {
+        rep.machinery(format!("vacuous: auto-merge paths not all exercised (merged under empty codebook {}, validator accepted {}, validator rejected a candidate with writes {})", s.merges_unvalidated, s.merges_validated, s.merges_rejected_with_writes));
     }
     if r.accepted_a == 0 {
         rep.machinery("vacuous: no replica accepted any block");
